@@ -12,7 +12,7 @@ META = {
              "member, values str (printable ASCII incl. | = > [), int, float, FMsg / FTag / FOrdStatus members; each return value or "
              "exception class compared with an ordered-list model, full structural comparison every 5 steps; distinct = hash of the op "
              "trace; non-trivial = trace contains a group operation, a refused set and an equality test"),
-    "assumptions": ["unspecified and never judged: non-canonical tag spellings ('007', ' 7'), whether negative group indexes count from the end, which message error add_group onto a plain "
+    "assumptions": ["unspecified and never judged: tags written with leading zeros ('007'), whether negative group indexes count from the end, which message error add_group onto a plain "
                     "tag raises, deleting a missing tag, class objects as values, equality of permuted containers, gtag naming a nested group"],
 }
 REQUIRED_ORACLES = ["op-outcome", "structure", "equality", "pickle"]
@@ -326,8 +326,10 @@ def run_seq(acc, rnd, nops, cid):
             tn = int(rnd.choice(TAGS))
             # also: objects that EQUAL an integer tag some container of this process has used (same hash), but are not integers
             bad = rnd.choice(["abc", "", "1.5", 1.5, None, "1e3", "0x10", "１２", "--1", float(tn), Decimal(f"{tn}.0"), float(tn) + 0.5, f"{tn}.0", complex(tn, 0)])
-            if bad == "１２":
-                continue  # full-width digits: int() accepts them; 'non-canonical spelling' is unspecified
+            if rnd.random() < 0.35:
+                # spellings Python's int() tolerates but that are not integers in decimal notation: refused like any non-integer tag
+                bad = rnd.choice([f" {tn}", f"{tn} ", f"+{tn}", f"{tn}_0", "٣", f"-{tn}", "１２", f"{tn}\n"])
+                acc.add("tags_in_spellings_only_int_tolerates")
             before = walk(c)
             how = rnd.choice(["set", "set", "set_group", "add_group", "ctor"])
             if how == "set":
@@ -339,6 +341,11 @@ def run_seq(acc, rnd, nops, cid):
             else:
                 got = outcome(lambda: FIXContainer({bad: [{11: "x"}]}))
             trace[-1] = (op, how, repr(bad))
+            if isinstance(bad, str) and bad.strip("+-_ \n０１２３４５６７８９٣").isdigit() is not None and got != ("exc", "FIXMessageError") and \
+                    bad not in ("abc", "", "1.5", "1e3", "0x10", "--1") and not bad.endswith(".0"):
+                acc.oracle("op-outcome")
+                V("op:badtag:int-tolerated-spelling", f"{how}({bad!r}) -> {got!r}: a tag spelling that only Python's int() takes for an integer was accepted (stored verbatim)")
+                break
             expect(op, got, ("exc", "FIXMessageError"))
             if walk(c) != before:
                 V("refused-set-changed-container", f"set({bad!r}) raised but the container changed")
